@@ -285,6 +285,11 @@ func handleServerKeyExchange(
 		if psk, err = cfg.LocalPSKCallback(bytes.Clone(keyExchangeMessage.IdentityHint)); err != nil {
 			return &alert.Alert{Level: alert.Fatal, Description: alert.InternalError}, err
 		}
+		// No key for this hint. Keying the handshake with the empty key would
+		// authenticate whoever does the same.
+		if len(psk) == 0 {
+			return &alert.Alert{Level: alert.Fatal, Description: alert.HandshakeFailure}, dtlserrors.ErrIdentityNoPSK
+		}
 		state.IdentityHint = bytes.Clone(keyExchangeMessage.IdentityHint)
 		switch state.CipherSuite.KeyExchangeAlgorithm() {
 		case ciphersuite.KeyExchangeAlgorithmPsk:
